@@ -45,6 +45,13 @@ def run(ctx):
     ctx.rule(derived_state)
     ctx.rule(dimcheck)
     ctx.rule(readonly)
+    ctx.rule(no_process_state)
+
+
+def no_process_state(ctx, R="R-C16-derived-state"):
+    """the statistics an instance uses are its own: loaded through no memoised reader, kept in no class- or module-level object"""
+    from .c17 import no_process_state as nps
+    nps(ctx, R)
 
 
 def _std(prog):
